@@ -858,6 +858,8 @@ def run_write(case: dict, order=None, rots=None, timeout: float = 20.0) -> dict:
             mesh.write(path2)
             second["outcome"] = "ok"
             second["text"] = open(path2).read()
+            if second.get("stretched"):
+                second["internals"] = read_internals(mesh)  # lengths, counts and specifications on the moved vertices
         except Hang:
             second["outcome"] = "hang"
         except Exception as e:
@@ -1220,6 +1222,25 @@ def prepare(case: dict, order=None, rots=None):
         obs["second"]["same_text"] = sec["text"] == res.get("text")
         if sec.get("stretched"):
             obs["second"]["vertices"] = parse_vertices(sec["text"])
+    # the write after the vertex moves as M-HIST with the calculator inside sees it (T_C04_session_geometry_free): a fresh
+    # run on the new wire lengths with the same chops as typed.  Only for chops whose evaluation cannot be refused on the
+    # new lengths (no preserved or given cell size together with a count: those may stop fitting), so that the count
+    # resolution of size-based chops on the new average lengths is what is compared.
+    if sec.get("stretched") and sec.get("outcome") == "ok" and "internals" in sec and not (unreal or extreme):
+        it2 = sec["internals"]
+        it2["pos_of_block"] = pos_of_block
+        safe = all(
+            kw.get("preserve", "c2c_expansion") == "c2c_expansion" and not ("count" in kw and ("start_size" in kw or "end_size" in kw))
+            for ap in applied for kw in ap["calls_now"]
+        )
+        if safe:
+            chops2, err2 = resolve_chops({"chops": applied}, it2)
+            if not err2:
+                obs["second"]["model"] = {
+                    "outcome": "ok", "message": None, "hex": obs["second"]["hex"],
+                    "internals": {k: it2[k] for k in ("nbrs", "coinc", "verts", "lens", "specs", "counts", "simple")},
+                    "chops": chops2,
+                }
     th = res.get("third", {})
     if th:
         obs["third"] = {k: th.get(k) for k in ("outcome", "message", "late_error", "file_written")}
